@@ -46,7 +46,7 @@ fn c15_pad(s: &mut Src) -> &'static str {
     PADS[s.weighted(&[30, 10, 5, 4, 3, 3, 2, 2, 2])]
 }
 
-fn c15_line(s: &mut Src, obs_labels: &mut Vec<&'static str>) -> Vec<u8> {
+pub fn c15_line(s: &mut Src, obs_labels: &mut Vec<&'static str>) -> Vec<u8> {
     let kind = s.weighted(&[40, 14, 6, 5]);
     match kind {
         0 => {
@@ -376,7 +376,7 @@ fn c15_cases_enum(tier: Tier, shard: u64, nshards: u64, f: &mut dyn FnMut(&[u64]
 fn c15_plan(tier: Tier) -> Vec<Job> {
     let q = tier == Tier::Quick;
     vec![
-        Job { sub: "blocks", kind: JobKind::Pbt { cases: if q { 300_000 } else { 5_000_000 }, max_len: 160 }, smallbuf: false },
+        Job { sub: "blocks", kind: JobKind::Pbt { cases: if q { 1_000_000 } else { 15_000_000 }, max_len: 160 }, smallbuf: false },
         Job { sub: "pairs", kind: JobKind::Enum { f: c15_pairs_enum, bound: "all ordered pairs (thorough: triples) of 35 curated header lines x 3 block terminators" }, smallbuf: false },
         Job { sub: "cases", kind: JobKind::Enum { f: c15_cases_enum, bound: "7 recognised names x every letter-case pattern (names <= 10 letters: all 2^n; longer: every k-th pattern) x 6 paddings" }, smallbuf: false },
     ]
@@ -765,7 +765,7 @@ fn c16_plan(tier: Tier) -> Vec<Job> {
         Job { sub: "edits", kind: JobKind::Enum { f: c16_edits_enum, bound: "every single-byte substitution (256 values), deletion and insertion (256 values) at every position of every canonical token" }, smallbuf: false },
         Job { sub: "misc", kind: JobKind::Enum { f: c16_misc_enum, bound: "media types with 0..2 of 8 whitespace kinds on each side; round trips of all values; all 11 status codes" }, smallbuf: false },
         Job { sub: "uris", kind: JobKind::Enum { f: c16_uris_enum, bound: if q { "all URIs of <= 7 symbols over {h,t,p,:,/,a,.,%,U+00E9}" } else { "all URIs of <= 9 symbols over {h,t,p,:,/,a,.,%,U+00E9}" } }, smallbuf: false },
-        Job { sub: "uri_random", kind: JobKind::Pbt { cases: if q { 50_000 } else { 2_000_000 }, max_len: 48 }, smallbuf: false },
+        Job { sub: "uri_random", kind: JobKind::Pbt { cases: if q { 300_000 } else { 5_000_000 }, max_len: 48 }, smallbuf: false },
     ]
 }
 
@@ -984,7 +984,7 @@ fn c17_small_enum(tier: Tier, shard: u64, nshards: u64, f: &mut dyn FnMut(&[u64]
 fn c17_plan(tier: Tier) -> Vec<Job> {
     let q = tier == Tier::Quick;
     vec![
-        Job { sub: "tables", kind: JobKind::Pbt { cases: if q { 60_000 } else { 2_000_000 }, max_len: 80 }, smallbuf: false },
+        Job { sub: "tables", kind: JobKind::Pbt { cases: if q { 300_000 } else { 6_000_000 }, max_len: 80 }, smallbuf: false },
         Job { sub: "small", kind: JobKind::Enum { f: c17_small_enum, bound: "4 prefixes x all ordered route tables of <= 2 (quick) / <= 3 (thorough) registrations over 3 methods x 10 paths (duplicates included) x all requests over the same alphabet in origin-form and two absolute forms, with and without the prefix" }, smallbuf: false },
     ]
 }
@@ -1287,7 +1287,7 @@ fn c05_seq_enum(tier: Tier, shard: u64, nshards: u64, f: &mut dyn FnMut(&[u64]) 
 fn c05_plan(tier: Tier) -> Vec<Job> {
     let q = tier == Tier::Quick;
     vec![
-        Job { sub: "build", kind: JobKind::Pbt { cases: if q { 40_000 } else { 1_000_000 }, max_len: 400 }, smallbuf: false },
+        Job { sub: "build", kind: JobKind::Pbt { cases: if q { 200_000 } else { 4_000_000 }, max_len: 400 }, smallbuf: false },
         Job { sub: "seq", kind: JobKind::Enum { f: c05_seq_enum, bound: if q { "2 versions x 11 statuses x all builder-call kind sequences of length <= 3 over 7 kinds" } else { "2 versions x 11 statuses x all builder-call kind sequences of length <= 5 over 7 kinds" } }, smallbuf: false },
     ]
 }
@@ -1503,7 +1503,7 @@ fn c14_edit_enum(_tier: Tier, shard: u64, nshards: u64, f: &mut dyn FnMut(&[u64]
 fn c14_plan(tier: Tier) -> Vec<Job> {
     let q = tier == Tier::Quick;
     vec![
-        Job { sub: "diff", kind: JobKind::Pbt { cases: if q { 100_000 } else { 3_000_000 }, max_len: 300 }, smallbuf: false },
+        Job { sub: "diff", kind: JobKind::Pbt { cases: if q { 500_000 } else { 8_000_000 }, max_len: 300 }, smallbuf: false },
         Job { sub: "edit", kind: JobKind::Enum { f: c14_edit_enum, bound: "4 canonical slices x every byte position x {delete, replace by each of 12 symbols, insert each of 12 symbols}" }, smallbuf: false },
     ]
 }
